@@ -1,5 +1,5 @@
 (* C04 — property theorems.  Nothing but statements, `exact`, Print Assumptions. *)
-From G04 Require Import Access AccessCheck AccessProofs B64Proofs AcceptProofs Obligations.
+From G04 Require Import Access AccessCheck AccessProofs B64Proofs AcceptProofs OracleProofs Obligations.
 
 (* A request the chain refuses — at ANY position on a connection, whatever its method
    (CONNECT included) — produces no Dial and no Send, and exactly one response: the
@@ -81,6 +81,18 @@ Theorem T04_allow_forwarded : forall cfg e q up,
 Proof. exact (fun cfg e q up H => allowed_exchange ob_handle_shape ob_connect_shape cfg e q up
                 (proj2 (verdict_allow_iff ob_security_before_stack cfg e q) H)). Qed.
 Print Assumptions T04_allow_forwarded.
+
+(* The run-time oracle is met by the model: for EVERY configuration, time and request, what the
+   model predicts (status, headers, dial log, what reaches a peer, where the exchange goes)
+   satisfies xcase_prop_ok — the very predicate evaluated on the real proxy's observations. *)
+Theorem T04_model_meets_oracle : forall cfg e q,
+  xcase_prop_ok {| x_cfg := cfg; x_env := e; x_req := q; x_obs := predicted_obs cfg e q |} = true.
+Proof.
+  exact (model_meets_oracle ob_basic_prefix ob_security_before_stack ob_status_map
+           (proj1 ob_localhost_maps_idna) ob_localhost_strips_zone ob_localhost_checks_unspecified
+           (proj2 ob_localhost_maps_idna) ob_challenge_present ob_challenge_basic_prefix).
+Qed.
+Print Assumptions T04_model_meets_oracle.
 
 (* Non-vacuity: a concrete configuration with all four controls and concrete requests. *)
 Example T04_example :
